@@ -164,7 +164,7 @@ class PPWorld:
         if t is not None:
             cur = self.fs.files.get(t['path'])
             snap['dest'] = bytes(cur) if cur is not None else None
-            snap['temps'] = [f for f in self.fs.files if f.startswith(t['path'] + '.')]
+            snap['temps'] = self.fs.temps_of(t['path'])
         self.done_events.setdefault(tid, []).append(snap)
 
     def _dest_invariant(self, fs, op, path):
@@ -451,7 +451,7 @@ def evaluate(w):
             w.violation('C19', 'cancel-ignored',
                         'download %d was cancelled before it was done but result() returned normally'
                         % tid)
-        temps = [x for x in w.fs.files if x.startswith(t['path'] + '.')]
+        temps = w.fs.temps_of(t['path'])
         if temps and not any(fr['spec']['site'] == 'fs' and fr['spec'].get('op') == 'remove'
                              for fr in w.faults.fired):
             w.violation('C06', 'temp-left',
